@@ -215,6 +215,22 @@ impl Property for NatProp {
             return CaseOut::discard("form-not-in-floor");
         }
         let n = d.native.as_ref().unwrap();
+        if noncanonical_transfer(&d) {
+            return CaseOut::discard("non-canonical-branch-target (vendor-specific fault point)");
+        }
+        if d.ins.mnemonic() == Mnemonic::Ret && matches!(d.emu, Emu::Ok(false)) {
+            // RSP + 8 equals the machine's stack_top (0 here: no init_stack): the emulator's
+            // "top-level RET finishes the run" convention, which is C11's subject
+            return CaseOut::discard("top-level-ret-finish (C11)");
+        }
+        if let Some(known) = idiv64_deviation(c, &d).filter(|_| matches!(which, Which::C01 | Which::C06)) {
+            // KF-C01-1: the whole outcome (registers or error) equals the zero-extended-divisor model
+            let mut o = CaseOut::pass(true, fp).class(format!("form:{}", code)).class("deviation:idiv64-unsigned-divisor");
+            if known {
+                o.verdict = Verdict::Known("KF-C01-1".into());
+                return o;
+            }
+        }
         let has_mem = (0..d.ins.op_count()).any(|i| d.ins.op_kind(i) == OpKind::Memory);
         out = out.class(if has_mem { "operand:mem" } else { "operand:reg" });
         out = out.class(if n.completed() { "cpu:completes" } else { "cpu:faults" });
@@ -242,6 +258,23 @@ impl Property for NatProp {
 
         match which {
             Which::C06 => {
+                // stack instructions: the fault verdict of the implicit stack access is shifted by
+                // KF-C04-1; accept exactly what the slot-bias model predicts, nothing else
+                let verdict_differs = matches!((&d.emu, n.completed()), (Emu::Ok(_), false) | (Emu::Err(_), true));
+                let mem_via_rsp = (0..d.ins.op_count()).any(|i| d.ins.op_kind(i) == OpKind::Memory) && (d.ins.memory_base().full_register() == Register::RSP || d.ins.memory_index().full_register() == Register::RSP);
+                if verdict_differs && matches!(insn::class_of(d.ins.mnemonic()), Class::Stack | Class::CallRet) && mem_via_rsp {
+                    return CaseOut::discard("rsp-based-memory-operand-interacts-with-slot-bias");
+                }
+                if verdict_differs && matches!(insn::class_of(d.ins.mnemonic()), Class::Stack | Class::CallRet) {
+                    if let Some(nb) = self.biased_native(c, &d.ins) {
+                        if !(noncanonical_rip(nb.regs.rip) && !nb.completed()) && matches!((&d.emu, nb.completed()), (Emu::Ok(_), true) | (Emu::Err(_), false)) {
+                            let mut o = out.class("deviation:stack-slot-bias-verdict");
+                            o.nontrivial = true;
+                            o.verdict = Verdict::Known("KF-C04-1".into());
+                            return o;
+                        }
+                    }
+                }
                 out.nontrivial = !n.completed() || d.accesses.iter().any(|(a, s, _, _)| near_edge(*a, *s)) || matches!(d.ins.mnemonic(), Mnemonic::Div | Mnemonic::Idiv);
                 match (&d.emu, n.completed()) {
                     (Emu::Ok(_), true) => out.class("verdict:both-complete"),
@@ -410,6 +443,76 @@ impl Property for NatProp {
     }
 }
 
+/// A control transfer whose target is not a canonical address: Intel faults at the branch, AMD at
+/// the target, so the native verdict is vendor-specific (DESIGN 2.2). Recognised from the emulator's
+/// own landing address, which is only trusted for this exclusion.
+fn noncanonical_transfer(d: &Diff) -> bool {
+    if !matches!(insn::class_of(d.ins.mnemonic()), Class::Branch | Class::CallRet) {
+        return false;
+    }
+    let n = match &d.native {
+        Some(n) => n,
+        None => return false,
+    };
+    if n.completed() {
+        return false;
+    }
+    match (&d.emu, &d.emu_regs) {
+        (Emu::Ok(_), Some(r)) => {
+            let top = r.rip >> 47;
+            top != 0 && top != 0x1ffff
+        }
+        _ => false,
+    }
+}
+
+/// KF-C01-1 expected-deviation model: IDIV r/m64 with a divisor whose top bit is set behaves as if
+/// the divisor were zero-extended (the repository's own test idiv_rax_rdx_1273656987127188586
+/// asserts that result). Returns None when the case is not in the deviation's domain, Some(true)
+/// when the emulator's outcome equals the model's, Some(false) otherwise.
+fn idiv64_deviation(c: &NCase, d: &Diff) -> Option<bool> {
+    if d.ins.code() != Code::Idiv_rm64 {
+        return None;
+    }
+    let divisor: u64 = match d.ins.op0_kind() {
+        OpKind::Register => c.gpr[d.ins.op0_register().full_register().number()],
+        OpKind::Memory => {
+            let (a, _, _, _) = *d.accesses.first()?;
+            let images = crate::mach::arena_images(c);
+            let ar = arena_of(a)?;
+            if a + 8 > ar.base + ar.len as u64 {
+                return None;
+            }
+            let img = &images.iter().find(|(k, _)| *k == ar.kind)?.1;
+            let off = (a - ar.base) as usize;
+            u64::from_le_bytes(img[off..off + 8].try_into().ok()?)
+        }
+        _ => return None,
+    };
+    if divisor >> 63 == 0 {
+        return None;
+    }
+    let dividend = ((c.gpr[2] as u128) << 64 | c.gpr[0] as u128) as i128;
+    let dv = divisor as u128 as i128;
+    let (q, r) = (dividend.wrapping_div(dv), dividend.wrapping_rem(dv));
+    let fits = q >= i64::MIN as i128 && q <= i64::MAX as i128;
+    Some(match (&d.emu, &d.emu_regs) {
+        (Emu::Ok(_), Some(er)) => {
+            fits && er.gpr[0] == q as u64
+                && er.gpr[2] == r as u64
+                && (0..16).all(|i| i == 0 || i == 2 || er.gpr[i] == c.gpr[i])
+                && er.rip == d.ins.next_ip()
+        }
+        (Emu::Err(_), _) => !fits,
+        _ => false,
+    })
+}
+
+fn noncanonical_rip(rip: u64) -> bool {
+    let top = rip >> 47;
+    top != 0 && top != 0x1ffff
+}
+
 fn near_edge(a: u64, s: u64) -> bool {
     ARENAS.iter().any(|d| {
         let lo = d.base;
@@ -494,6 +597,11 @@ impl NatProp {
         bytes[p] = 0x65;
         let twin = NCase { code: crate::util::hex(&bytes), fs: c.gs, gs: c.fs, ..c.clone() };
         let a = self.eng().run(c, false);
+        // an operand that reads the instruction's own bytes sees the swapped prefix: not comparable
+        let len = c.code_bytes().len() as u64;
+        if a.accesses.iter().any(|(ad, sz, _, _)| *ad < c.rip + len && ad.wrapping_add(*sz) > c.rip) {
+            return CaseOut::discard("operand-overlaps-own-instruction-bytes");
+        }
         let b = self.eng().run(&twin, false);
         let mut out = CaseOut::pass(true, fp).class(format!("form:{}", code)).class("seg:fs-twin");
         let same = match (&a.emu, &b.emu) {
@@ -530,6 +638,12 @@ impl NatProp {
             return CaseOut::discard("form-not-in-floor");
         }
         let n = *d.native.as_ref().unwrap();
+        if noncanonical_transfer(&d) {
+            return CaseOut::discard("non-canonical-branch-target (vendor-specific fault point)");
+        }
+        if d.ins.mnemonic() == Mnemonic::Ret && matches!(d.emu, Emu::Ok(false)) {
+            return CaseOut::discard("top-level-ret-finish (C11)");
+        }
         let mut out = CaseOut::pass(true, fp).class(format!("form:{}", code));
         let size = d.ins.stack_pointer_increment().unsigned_abs() as u64;
         let stack_relevant = |d: &Diff| -> Vec<String> {
@@ -616,6 +730,21 @@ impl NatProp {
             ),
         };
         out
+    }
+
+    /// The CPU's outcome for `c` started with RSP + operand size (KF-C04-1 model). None if unsafe.
+    fn biased_native(&mut self, c: &NCase, ins: &Instruction) -> Option<Outcome> {
+        let size = ins.stack_pointer_increment().unsigned_abs() as u64;
+        let mut cb = c.clone();
+        cb.gpr[4] = c.gpr[4].wrapping_add(size);
+        let images = crate::mach::arena_images(&cb);
+        let (bins, _) = self.eng().decode(&cb);
+        let acc = self.eng().accesses(&bins, &cb);
+        if acc.iter().any(|(a, s, _, _)| self.eng().native.touches_host(*a, *s)) {
+            return None;
+        }
+        crate::mach::load_native(&self.eng().native, &images);
+        Some(self.eng().native.step(&cb.regs()))
     }
 
     /// Re-run the emulator for `c` and compare its areas with the native arenas as they are now.
